@@ -7,6 +7,9 @@ package dht
 // peers, inside a synctest bubble.
 
 import (
+	"encoding/base64"
+	ci "github.com/libp2p/go-libp2p/core/crypto"
+	"github.com/libp2p/go-libp2p/core/routing"
 	"context"
 	"crypto/sha256"
 	"fmt"
@@ -39,6 +42,7 @@ type lkPeer struct {
 	Group  int    `json:"group"`             // IP group (/16); -1 = no address
 	Priv   bool   `json:"priv,omitempty"`    // address of the class the query filter rejects
 	Val    int    `json:"val,omitempty"`     // GET_VALUE: 0 none; 1..9 valid record of that rank; -1 invalid; -2 record for another key; -3 empty value; -4 malformed value
+	ValVar int    `json:"val_var,omitempty"` // >0: the valid record carries other bytes of the same rank (a tie under the validator's Select)
 	Provs  []int  `json:"provs,omitempty"`   // GET_PROVIDERS: provider refs (as Knows)
 	PNoAdr bool   `json:"pnoaddr,omitempty"` // providers listed without addresses
 	Put    string `json:"put,omitempty"`     // PUT_VALUE / ADD_PROVIDER treatment: "" ok | fail | hang
@@ -62,7 +66,37 @@ type lkSc struct {
 
 const unknownBase = 8000 // pool indices of peers that liars may name but that do not exist
 
+// fixed ECDSA public keys (marshalled, base64): peer ids derived from them are SHA-256 multihashes, i.e. the key is NOT
+// inlined in the id and has to be fetched (GetPublicKey). Fixed so that scenarios replay identically in every process.
+var simPubKeysB64 = []string{
+	"CAMSWzBZMBMGByqGSM49AgEGCCqGSM49AwEHA0IABHnbJGRXr0qk53Y1HjkKkLnfLLr+J46CQGHFqUahiQsJEdlDOId/qRQu3QUvwcYm0pO/JUOMCEYQ582nMIYmvXg=",
+	"CAMSWzBZMBMGByqGSM49AgEGCCqGSM49AwEHA0IABImZOZHeBXYF/5k851COi1eaUc52ddncgXGYc/Zhy0Vy8nGn2Pjw0VKLLWYLcty42K9aSNe2wYlH34laGy9KkPw=",
+	"CAMSWzBZMBMGByqGSM49AgEGCCqGSM49AwEHA0IABJWjcXiPqKKfUll+IsWdcEMmJGahwXMrcVvSD72+sLlrvfEEnwinNpGOw+HJfjY1ehAxLp0GB8TKPxjzHPUnXNA=",
+	"CAMSWzBZMBMGByqGSM49AgEGCCqGSM49AwEHA0IABHCBVfMZR//pqcVrsdiCRch5vXp03FQX1qUNuQLRMORpra6GchBbDPpXEkwo6RGf/BacJO7xTcmrhCpT3xrWCo4=",
+}
+
+// simPubKey returns the i-th fixed public key (marshalled) and the peer id it belongs to.
+func simPubKey(i int) ([]byte, peer.ID) {
+	b, err := base64.StdEncoding.DecodeString(simPubKeysB64[i%len(simPubKeysB64)])
+	if err != nil {
+		panic(err)
+	}
+	pk, err := ci.UnmarshalPublicKey(b)
+	if err != nil {
+		panic(err)
+	}
+	id, err := peer.IDFromPublicKey(pk)
+	if err != nil {
+		panic(err)
+	}
+	return b, id
+}
+
 func (s *lkSc) keyString() string {
+	if s.KeyKind == 3 {
+		_, id := simPubKey(s.Key)
+		return routing.KeyForPublicKey(id)
+	}
 	if s.KeyPeer > 0 && len(s.Peers) > 0 {
 		return ppool().IDs[s.Peers[(s.KeyPeer-1)%len(s.Peers)].ID]
 	}
